@@ -93,6 +93,9 @@ def build(ctx, tier="quick", constraints=True, set_null=True, normalize_names=Fa
         names = {"plain": [NM["a"], NM["b"]], "dq": [NM["dq"], NM["a"]], "bt": [NM["bt"], NM["a"]], "br": [NM["br"], NM["a"]]}[style]
     if normalize_names:
         names.append(NM["short"])
+    if final and "keys" in final:
+        # a second spelling of the same names (other case, quoted): a different column as far as the declarations go
+        names.append(lm.custom('"A"', [f'"{e.upper()}"' for e in NM["a"].exemplars], "DQ"))
     for nm in names:
         n1 = s.edge(colstart, nm, Tag("col", True, "name"))
         t1 = s.edge(n1, typ, Tag("col", False, "type"))
@@ -213,9 +216,14 @@ def build(ctx, tier="quick", constraints=True, set_null=True, normalize_names=Fa
         s.edge(D, P[","], Tag("sep", True), sep)
         s.edge(D, P[")"], Tag("end", True), end)
     oracle = make_oracle(s, normalize_names)
+    if final and "keys" in final:
+        from .final import _name_relations
+        # keep, of the collapsed table accumulator, whether two of its columns differ only in quoting / letter case: the
+        # declarations that follow are then explored for such tables as well
+        s.acc_summary = lambda sym, v: bool(_name_relations(v)) if (sym == "expr" and isinstance(v, dict)) else None
     if final:
         from .final import FinalJudge
-        oracle = FinalJudge(ctx, oracle, rules=final, modes=final_modes, label=s.name, max_shapes=160 if tier == "thorough" else 40)
+        oracle = FinalJudge(ctx, oracle, rules=final, modes=final_modes, label=s.name, max_shapes=(1200 if tier == "thorough" else 400) if tuple(final) == ("keys",) else (160 if tier == "thorough" else 40))
     return s, oracle
 
 
